@@ -178,7 +178,9 @@ theorem step_inv (div : DivFn) (s s' : St) (a : Act) (h : Inv s) (hs : step div 
     simp only [step] at hs
     split at hs <;> try (cases hs; done)
     all_goals try (rename_i ph p rest hpc; exact stepPoll_inv s s' ph p rest _ h hpc hs)
-    -- pc = top
+    -- pc = top (v1 only)
+    split at hs
+    case isFalse => cases hs
     cases c with
     | stop =>
       simp only [stepTop] at hs
